@@ -182,6 +182,22 @@ static void trace_workload(const sentry_t *s, priv_t *p)
                         for (int i = 0; i < n; i++) { al->ctx_init(ctx[i]); TF_ON(); ((h_submit_f) al->entry[1])(mgr, ctx[i], p->in, (uint32_t) ((i * 37 + 5) % 330), ISAL_HASH_ENTIRE); TF_OFF(); }
                         do { TF_ON(); r_ = ((h_flush_f) al->entry[2])(mgr); TF_OFF(); } while (r_);
                 }
+                /* segmented messages: partial blocks carried, completed and padded by the context layer of the family */
+                {
+                        static const uint32_t seg[][5] = { { 100, 60, 0, 3 * 128 + 5, 7 }, { 0, 1, 127, 128, 0 }, { 250, 6, 300, 0, 200 } };
+                        TF_ON(); ((h_init_f) al->entry[0])(mgr); TF_OFF();
+                        for (int j = 0; j < 3; j++) {
+                                al->ctx_init(ctx[j]);
+                                uint32_t off = 0;
+                                for (int k = 0; k < 5; k++) {
+                                        int fl = k == 0 ? ISAL_HASH_FIRST : k == 4 ? ISAL_HASH_LAST : ISAL_HASH_UPDATE;
+                                        void *r_;
+                                        TF_ON(); r_ = ((h_submit_f) al->entry[1])(mgr, ctx[j], p->in + off % 200, seg[j][k], fl); TF_OFF();
+                                        while (!r_ || r_ != ctx[j]) { TF_ON(); r_ = ((h_flush_f) al->entry[2])(mgr); TF_OFF(); if (!r_) break; }
+                                        off += seg[j][k];
+                                }
+                        }
+                }
                 for (int i = 0; i < 40; i++) free(ctx[i]);
                 free(mgr);
                 return;
@@ -192,6 +208,17 @@ static void trace_workload(const sentry_t *s, priv_t *p)
                 entrycall_trace = 1;
                 call_entry(s, p, 7 + i);
                 entrycall_trace = 0;
+        }
+        if (s->kind == 10 || s->kind == 11 || s->kind == 13) {
+                /* GCM: the other tag lengths and AAD lengths have branches of their own */
+                static const uint32_t tl[] = { 12, 8, 16 }, al_[] = { 0, 1, 16, 33, 64 }, ll[] = { 0, 5, 100 };
+                for (int t = 0; t < 3; t++) for (int a = 0; a < 5; a++) for (int l = 0; l < (s->kind == 10 ? 3 : 1); l++) {
+                        if (s->kind == 13 && a > 0) continue;
+                        if (s->kind == 11 && t > 0) continue;
+                        entrycall_taglen = tl[t]; entrycall_aadlen = al_[a]; entrycall_len = (int) ll[l];
+                        entrycall_trace = 1; call_entry(s, p, 99 + (uint64_t) (t * 16 + a * 3 + l)); entrycall_trace = 0;
+                }
+                entrycall_taglen = 16; entrycall_aadlen = 20;
         }
         entrycall_len = -1;
 }
